@@ -710,15 +710,21 @@ def rule_jn_dispatch(cx, rep, port):
     rep.decide(len(jg) == 1 and set(jg[0]) == set(got), 'joiner table total', d, 'dispatch table covers exactly the join statement group', 'the join statement group {} and the dispatch table keys {} differ'.format(jg[0] if jg else None, sorted(got)))
     # build() precedes joiner construction; joiner receives the built map
     seq = []
+    joiner_names_ = {c.name for c in roles.joiners(p, mod)}
     for n in walk_no_nested(sp):
         if isinstance(n, ast.Call):
             nm = call_name(n) or ''
             if nm.endswith('join_map_impl.build'):
-                seq.append(('build', n.lineno))
+                seq.append(('build', n.pos))
             if nm in ('joiner_type', 'sql_join_type'):
-                seq.append(('construct', n.lineno))
+                seq.append(('construct', n.pos))
             if nm == 'HashJoinMap':
-                seq.append(('map', n.lineno))
+                seq.append(('map', n.pos))
+    if not any(k == 'construct' for k, _ in seq):
+        # the joiner classes are named at the place of construction (if-chain / conditional expression): the statement that stores the joiner
+        st_ = [n for n in walk_no_nested(sp) if isinstance(n, ast.Assign) and (dotted(n.targets[0]) or '').endswith('.join_map') and any(isinstance(x, ast.Call) and dotted(x.func) in joiner_names_ for x in ast.walk(n.value))]
+        if st_:
+            seq.append(('construct', min(x.pos for x in st_)))
     order = [s[0] for s in sorted(seq, key=lambda s: s[1])]
     rep.decide(order == ['map', 'build', 'construct'], 'build before joiner', sp, 'HashJoinMap -> build() -> joiner (the LEFT JOIN null record needs the final width)', 'join map construction order is {} (must be map, build, construct): LeftJoiner would see max_record_len = 0'.format(order))
 
@@ -742,6 +748,59 @@ def _joiner_mapping(p, mod, sp, consts):
             cands.append((dict_of(n.value), None, n))
         if isinstance(n, ast.Call) and isinstance(n.func, ast.Attribute) and n.func.attr == 'get' and n.args and 'join_subtype' in node_text(n.args[0]) and dict_of(n.func.value) is not None:
             cands.append((dict_of(n.func.value), n.args[1] if len(n.args) > 1 else ast.Constant(value=None), n))
+    if not cands:
+        # dispatch written as an if-chain on the join subtype (possibly in a helper, inlined): the class constructed under each spelling
+        joiner_names = {c.name for c in roles.joiners(p, mod)}
+        def leaves(e, conds):
+            if isinstance(e, ast.IfExp):
+                return leaves(e.body, conds + [(e.test, True)]) + leaves(e.orelse, conds + [(e.test, False)])
+            return [(e, conds)]
+        assigns = []
+        for n in walk_no_nested(sp):
+            if isinstance(n, ast.Assign) and (dotted(n.targets[0]) or '').endswith('.join_map'):
+                lv = leaves(n.value, [])
+                if all(isinstance(e_, ast.Call) and dotted(e_.func) in joiner_names for e_, _ in lv):
+                    assigns.extend((n, e_, c_) for e_, c_ in lv)
+
+        def test_value(t, kw):
+            if isinstance(t, ast.Compare) and len(t.ops) == 1 and isinstance(t.ops[0], (ast.Eq, ast.NotEq, ast.In, ast.NotIn)) and 'join_subtype' in node_text(t.left, 200):
+                cv = const_value(t.comparators[0], consts)
+                if cv is not NOCONST:
+                    tv = (kw == cv) if isinstance(t.ops[0], (ast.Eq, ast.NotEq)) else (kw in cv if isinstance(cv, (list, tuple, set)) else None)
+                    if tv is not None and isinstance(t.ops[0], (ast.NotEq, ast.NotIn)):
+                        tv = not tv
+                    return tv
+            return None
+        if assigns:
+            got = {}
+            for kw in ('JOIN', 'INNER JOIN', 'LEFT JOIN', 'LEFT OUTER JOIN', 'STRICT LEFT JOIN'):
+                chosen = []
+                for a_stmt, a_call, a_conds in assigns:
+                    ok_ = True
+                    for t, pol in a_conds:
+                        tv = test_value(t, kw)
+                        if tv is None:
+                            raise Undecided('joiner dispatch: test `{}` not evaluable'.format(node_text(t, 60)), a_stmt)
+                        if tv != pol:
+                            ok_ = False
+                    a = a_stmt
+                    child, par = a, getattr(a, 'parent', None)
+                    while par is not None and par is not sp and ok_:
+                        if isinstance(par, ast.If):
+                            in_body = any(child is x for x in par.body)
+                            t = par.test
+                            tv = test_value(t, kw)
+                            if 'join_subtype' in node_text(t, 200):
+                                if tv is None:
+                                    raise Undecided('joiner dispatch: test `{}` not evaluable'.format(node_text(t, 60)), par)
+                                if tv != in_body:
+                                    ok_ = False
+                        child, par = par, getattr(par, 'parent', None)
+                    if ok_:
+                        chosen.append(dotted(a_call.func))
+                # the first statement reached wins when several are unconditional among the rest (early returns were inlined as if/else)
+                got[kw] = chosen[0] if chosen else None
+            return got, assigns[0][0]
     if len(cands) != 1:
         raise Undecided('joiner dispatch table not found', sp)
     d, default, node = cands[0]
